@@ -3,8 +3,10 @@
 //! same generated inputs and reports (a) model/implementation divergences, (b) cases where the property's
 //! conclusion predicate is false on the implementation's own output.
 mod driver;
+mod oracle;
 mod report;
 mod rng;
+mod c14;
 mod c15;
 mod c17;
 mod c19;
@@ -54,6 +56,10 @@ fn main() {
         "C19" => {
             rep = Report::new("C19", &o.tier, o.seed, "operand pairs (a,b) of 16 LE bytes; non-trivial = both operands non-zero; distinct by (stream,a,b)");
             match &replay_lines { Some(l) => c19::replay(&mut drv, &mut rep, l), None => c19::run(&o, &mut drv, &mut rep) }
+        }
+        "C14" => {
+            rep = Report::new("C14", &o.tier, o.seed, "(secret x, base point, transcript context, rng tape) for honest proofs, each followed by 17 single-field / single-bit mutations of (t,s), y, B and the context; non-trivial = x != 0; distinct by request");
+            match &replay_lines { Some(l) => c14::replay(&mut drv, &mut rep, l), None => c14::run(&o, &mut drv, &mut rep) }
         }
         "C15" | "C16" => {
             rep = Report::new(&o.prop, &o.tier, o.seed, "histories of relay operations (ask / publish frames on 3 connections, service send, clock advance); non-trivial = at least two relay operations; distinct by the full history");
